@@ -285,11 +285,11 @@ class extract_visitor(NodeVisitor):
 
     def visit_ClassDef(self, node):
         # type: (ast.ClassDef) -> None
-        cur = self.flow
-        self.visit_in_flow(node.decorator_list, cur)
-        self.visit_in_flow(node.bases, cur)
+        # the flow may change while these expressions are analysed (comprehensions)
+        cur = self.visit_in_flow(node.decorator_list, self.flow)
+        cur = self.visit_in_flow(node.bases, cur)
         for kw in getattr(node, 'keywords', []):
-            self.visit_in_flow(kw.value, cur)
+            cur = self.visit_in_flow(kw.value, cur)
         scope = ClassScope(cur.scope, node, top=self.top)
         cur.add_name(scope)  # type: ignore[arg-type]  # TODO
         self.visit_in_flow(node.body, scope.flow)
